@@ -307,8 +307,10 @@ def main(chk):
              cycles_resolved_automatically=tot["ac_from_cycle"], real_runs_with_rows=tot["rows"], documented_circular_errors=tot["raised"],
              samples=samples, tlc_runs=runs, exhaustive=(dev >= 1), dev_subsample=dev,
              rule="one case per graph printed by DdlGraphs.tla (edge set x per-FK option; exhaustive where tlc_runs says so, seeded samples "
-                  "otherwise); per case: PostgreSQL-mock S1 + S3, SQLite-mock and real SQLite S1 or S3 (seeded), S2 when the graph is acyclic "
-                  "without use_alter; for <=2 tables every (pre-existing subset, dropped subset) pair; non-trivial = at least one FK between "
+                  "otherwise); per case: PostgreSQL-mock S1 always and S3 with a seeded (pre-existing subset, dropped subset) pair when a non-trivial "
+                  "closed subset exists (else p=1/4), SQLite-mock and real SQLite S1 / S1cf / S3 (seeded; exactly one of the two for 3+ tables with mixed "
+                  "use_alter flags), S2 when the graph is acyclic without use_alter; for <=2 tables every (pre-existing, dropped) pair on the "
+                  "PostgreSQL mock; non-trivial = at least one FK between "
                   "two different tables (order matters)",
              checker_cmd="tlc Catalog.tla; tlc DdlGraphs.tla (INIT GInit); tlc TraceCatalog.tla (INIT TInit NEXT TNext POSTCONDITION Summary, -workers 1)"),
         assumptions=["Catalog.tla is the statement of PostgreSQL's DDL-time enforcement; no PostgreSQL server is available to calibrate it",
